@@ -673,6 +673,79 @@ def run(ctx: Any, prog: Program) -> None:
         for m_ in scalar_members:
             ctx.check('C06.V17', normalised, vm, call, f'DispVertex.{m_} is written as `{ast.unparse(call)[:50]}`: an int assigned through the API (the default distance is the int 0) is written as "0" but re-parsed as the float 0.0 '
                       'and written as "0.0" the next time - exporting, parsing and exporting again does not reproduce the text', func='Side._export_disp_rowset', text=f'row member {m_} has one spelling')
+    # ---- V18: positional constructor calls in the parsers agree with the declared field / parameter order ------------------------------
+    ctx.rule('C06.V18', 'a parsed value reaches the field it was read for: locals passed positionally to a constructor sit at the position of the field of the same name', floor=20)
+
+    def ctor_params(cname: str) -> Optional[List[str]]:
+        if not vm.has_class(cname):
+            return None
+        c_ = vm.cls(cname)
+        for st in c_.body:
+            if isinstance(st, ast.FunctionDef) and st.name == '__init__':
+                return [a.arg for a in st.args.args[1:]]
+        if any('attrs' in ast.unparse(d) or 'define' in ast.unparse(d) for d in c_.decorator_list):
+            return [st.target.id for st in c_.body if isinstance(st, ast.AnnAssign) and isinstance(st.target, ast.Name) and 'ClassVar' not in ast.unparse(st.annotation)]
+        return None
+    n_pos = 0
+    for qual, fns in vm.all_funcs().items():
+        if '.' not in qual or qual.split('.')[-1] not in ('parse', '_parse', 'parse_file', '_parse_displacement_data'):
+            continue
+        owner = qual.split('.')[0]
+        for fn in fns:
+            for c in ast.walk(fn):
+                if not (isinstance(c, ast.Call) and isinstance(c.func, ast.Name) and len(c.args) >= 3):
+                    continue
+                cname = owner if c.func.id == 'cls' else c.func.id
+                params = ctor_params(cname)
+                if params is None or len(c.args) > len(params):
+                    continue
+                pset = {p_.lstrip('_') for p_ in params}
+                for i, a in enumerate(c.args):
+                    if not isinstance(a, ast.Name):
+                        continue
+                    nm = a.id.lstrip('_')
+                    want = params[i].lstrip('_')
+                    if nm in pset:
+                        n_pos += 1
+                        ctx.check('C06.V18', nm == want, vm, a, f'{qual} passes the local `{a.id}` as positional argument {i} of {cname}(...), which is the field `{params[i]}`; the field `{a.id}` is at position '
+                                  f'{[p_.lstrip("_") for p_ in params].index(nm)} - the two values swap places on every parse', func=qual, text=f'{qual}: {cname}() argument {i} {a.id}')
+    if n_pos < 20:
+        raise AnalysisError(f'V18: only {n_pos} name-matched positional constructor arguments found in the parsers')
+    # V8 (row number): "row10" .. "row16" exist for power-4 displacements, so the row number is ALL digits after the word
+    idr = vm.func('Side._iter_disp_row')
+    y_defs = [a for a in ast.walk(idr) if isinstance(a, ast.Assign) and dotted(a.targets[0]) == 'y']
+    if len(y_defs) != 1:
+        ctx.shape('C06.V8', False, vm, idr, 'one assignment of the row number `y` expected in _iter_disp_row', func='Side._iter_disp_row', text='row number taken from the key')
+    else:
+        yv = y_defs[0].value
+        src_ = ast.unparse(yv)
+        whole_suffix = isinstance(yv, ast.Call) and dotted(yv.func) == 'int' and yv.args and isinstance(yv.args[0], ast.Subscript) and isinstance(yv.args[0].slice, ast.Slice) \
+            and yv.args[0].slice.upper is None and isinstance(yv.args[0].slice.lower, ast.Constant) and yv.args[0].slice.lower.value == len('row') and src_.replace(' ', '').endswith('name[3:])')
+        pat_ = None
+        for c in ast.walk(idr):
+            if isinstance(c, ast.Call) and isinstance(c.func, ast.Attribute) and c.func.attr in ('match', 'fullmatch', 'search'):
+                if isinstance(c.func.value, ast.Name) and c.func.value.id != 're':
+                    try:
+                        pv_ = vm.global_assign(c.func.value.id)
+                    except AnalysisError:
+                        pv_ = None
+                    if isinstance(pv_, ast.Call) and pv_.args and isinstance(pv_.args[0], ast.Constant):
+                        pat_ = (pv_.args[0].value, c.func.attr)
+                elif len(c.args) == 2 and isinstance(c.args[0], ast.Constant):
+                    pat_ = (c.args[0].value, c.func.attr)
+        if whole_suffix:
+            ctx.check('C06.V8', True, vm, y_defs[0], 'int(name[3:])', func='Side._iter_disp_row', text='row number taken from the key')
+        elif pat_ is not None and 'group' in src_:
+            pattern, how = pat_
+            digits = re.search(r'\((?:\?P<\w+>)?(\\d|\[0-9\])(\+|\*|\{[^}]*\})?\)', pattern)
+            if digits is None:
+                ctx.shape('C06.V8', False, vm, y_defs[0], f'row key pattern `{pattern}` has no digit group', func='Side._iter_disp_row', text='row number taken from the key')
+            else:
+                many = digits.group(2) in ('+',) or (digits.group(2) or '').startswith('{1,')
+                ctx.check('C06.V8', many, vm, y_defs[0], f'the row number is read with the pattern `{pattern}`: the group takes a single digit, so `row10` .. `row16` of a power-4 displacement are all read as row 1 '
+                          '(their data overwrites row 1 and rows 10-16 keep their defaults)', func='Side._iter_disp_row', text='row number taken from the key')
+        else:
+            ctx.shape('C06.V8', False, vm, y_defs[0], f'how the row number is derived (`{src_[:60]}`) is not an enumerated form', func='Side._iter_disp_row', text='row number taken from the key')
     # every class with both export and parse must be in PAIRS (discovery cross-check)
     for cname, c in vm.all_classes().items():
         ms = vm.methods(cname)
@@ -1112,6 +1185,9 @@ def elt_token_alternatives(elt: ast.AST, tokens_of_type: Dict[str, int]) -> Opti
 
 
 MUTANTS = [
+    {'id': 'solid_vis_fields_swapped', 'file': 'vmf.py', 'find': "            vis_shown,\n            vis_auto_shown,\n            is_cordon,\n            editor_color,\n        )", 'replace': "            vis_auto_shown,\n            vis_shown,\n            is_cordon,\n            editor_color,\n        )", 'expect': 'C06.V18'},
+    {'id': 'disp_row_key_single_digit', 'file': 'vmf.py', 'find': "            if row_prop.name.startswith('row'):\n                y = int(row_prop.name[3:])\n            else:\n                continue  # Ignore unknown keys.\n", 'replace': "            match = re.match(r'row(\\d)', row_prop.name)\n            if match is None:\n                continue\n            y = int(match.group(1))\n", 'expect': 'C06.V8'},
+    {'id': 'disp_row_key_all_digits', 'file': 'vmf.py', 'find': "            if row_prop.name.startswith('row'):\n                y = int(row_prop.name[3:])\n            else:\n                continue  # Ignore unknown keys.\n", 'replace': "            match = re.match(r'row(\\d+)$', row_prop.name)\n            if match is None:\n                continue\n            y = int(match.group(1))\n", 'expect': None},
     {'id': 'disp_scalars_written_with_plain_str', 'file': 'vmf.py', 'find': "            if isinstance(value, int):\n                # Scalars are parsed back as floats, give an int the same text as the re-parsed map would have.\n                value = float(value)\n", 'replace': "", 'expect': 'C06.V17'},
     {'id': 'multiblend_setters_bind_late', 'file': 'vmf.py', 'find': "_disprow_multiblend = [\n    (f'multiblend_color_{i}', _make_disprow_set_multiblend(i))\n    for i in range(4)\n]", 'replace': "_disprow_multiblend = []\nfor _i in range(4):\n    def _setter(vert: DispVertex, value: Vec) -> None:\n        assert vert.multi_colors is not None\n        vert.multi_colors[_i] = value\n    _disprow_multiblend.append((f'multiblend_color_{_i}', _setter))", 'expect': 'C06.V16'},
     {'id': 'world_comments_not_exported', 'file': 'vmf.py', 'find': "        if self.comments:\n            buffer.write(f'{ind}\\t\\t\"comments\" \"{escape_text(self.comments)}\"\\n')\n        buffer.write(ind + '\\t}\\n')\n\n        buffer.write(ind + '}\\n')", 'replace': "        if self.comments and not _is_worldspawn:\n            buffer.write(f'{ind}\\t\\t\"comments\" \"{escape_text(self.comments)}\"\\n')\n        buffer.write(ind + '\\t}\\n')\n\n        buffer.write(ind + '}\\n')", 'expect': 'C06.V15'},
